@@ -3,10 +3,12 @@ from num_common import *
 import bp
 
 EXPLANATION = ('C02: real Find_Root executed with the user function as an uninterpreted F (EA, up to K Ridder iterations from entry): exits only without a sign change and after a diagnostic, every evaluation point and the result lie in the bracket, '
-               'a zero bracket end is returned as is, either order of the ends gives the same run, linear functions are solved exactly in one step; all divisors / sqrt arguments are valid. '
+               'a zero bracket end is returned as is, either order of the ends gives the same run, linear functions are solved exactly in one step; all divisors / sqrt arguments are valid; '
+               'accuracy clause per run: a return within the first accuracy_iterations iterations is accepted only if two evaluated points of opposite sign (or an evaluated zero) lie within the requested accuracy of the result - by the intermediate value theorem that is exactly when every continuous function consistent with the run changes sign there. '
                'BP (CBMC on the IR-derived C, IEEE doubles): the entry logic for all pairs of end values incl. NaN and products that underflow.')
-BOUNDS = {'quick': {'K_iterations': 2}, 'thorough': {'K_iterations': 3}}
-NOT_DECIDED = ['the accuracy clause ("changes sign within the requested accuracy of the returned point"): withdrawn, z3 unknown already for a cubic and two iterations (DESIGN.md C02.7)', 'behaviour beyond K iterations', 'rounding in x4']
+BOUNDS = {'quick': {'K_iterations': 2, 'accuracy_iterations': 2}, 'thorough': {'K_iterations': 3, 'accuracy_iterations': 3}}
+K_ACC = [2]
+NOT_DECIDED = ['the accuracy clause for returns after more than accuracy_iterations iterations (and: from iteration 2 on it is violated on the unchanged tree, known finding C02/accuracy/successive-iterates, which hides other accuracy defects of later iterations)', 'behaviour beyond K iterations', 'rounding in x4', 'brackets beyond +-1e90 (the sentinel -9.9e99 of the first stopping test)']
 ASSUMPTIONS = ['F is an arbitrary function of its argument (uninterpreted), doubles exact reals in EA', 'paths with more than 2+2K evaluations are cut off (outside the bound)', 'BP: the user function returns arbitrary doubles']
 
 XL, XR, ACC = z3.Real('xl'), z3.Real('xr'), z3.Real('acc')
@@ -39,6 +41,19 @@ def job_entry(order, K):
         res.append(prove('%s/returns-only-with-sign-change-or-zero[%d]' % (tag, pi), pc, fl * fr <= 0, 60000, mv, key='C02/returns-only-with-sign-change', tactic='nra'))
         res.append(prove('%s/zero-left-end-returned[%d]' % (tag, pi), pc + [fl == 0], v == lo, 60000, mv, key='C02/zero-end-returned', tactic='nra'))
         res.append(prove('%s/zero-right-end-returned[%d]' % (tag, pi), pc + [fr == 0, fl != 0], v == hi, 60000, mv, key='C02/zero-end-returned', tactic='nra'))
+        if len(cs) >= 3:
+            # accuracy clause, decided exactly for the run: every continuous function that takes the recorded values at the recorded points changes sign (or vanishes) within acc of the result
+            # <=> two evaluated points of opposite sign (or one evaluated zero) lie within acc of the result (intermediate value theorem; otherwise the zero can be placed outside the window)
+            near = [z3.And(toR(c[1][0]) - v <= ACC, v - toR(c[1][0]) <= ACC) for c in cs]; fv = [toR(c[2]) for c in cs]
+            alts = [z3.And(near[a], fv[a] == 0) for a in range(len(cs))] + [z3.And(near[a], near[b], fv[a] * fv[b] < 0) for a in range(len(cs)) for b in range(a + 1, len(cs))]
+            it_no = (len(cs) - 1) // 2
+            akey = 'C02/accuracy/first-iterate' if it_no <= 1 else 'C02/accuracy/successive-iterates'
+            amv = dict(mv); amv['ret'] = v
+            if it_no <= K_ACC[0]:
+                aname = '%s/sign-change-within-accuracy[%d,it%d]' % (tag, pi, it_no); apre = pc + [fl * fr < 0, ACC <= hi - lo]
+                r = prove(aname, apre + [lo >= -10, hi <= 10] + [z3.And(x >= -10, x <= 10) for x in fv], z3.Or(*alts), 20000, amv, key=akey, tactic='nra')      # human-scale counterexample first
+                if r['status'] != 'candidate': r = prove(aname, apre + [lo >= -RV(1e90), hi <= RV(1e90)], z3.Or(*alts), 60000, amv, key=akey, tactic='nra')
+                res.append(r)
     res.append(ob(tag + '/coverage', 'discharged' if nret and nexit else 'broken', detail='%d returning, %d exiting, %d cut-off paths' % (nret, nexit, ncut), key='C02/coverage'))
     return res
 
@@ -84,7 +99,7 @@ def job_bp(h):
     return bp.run_harness('C02', 'C02.c', h, G['m'], ['verif_c02_root'])
 
 def jobs(ctx):
-    module(ctx); K = BOUNDS[ctx.tier]['K_iterations']
+    module(ctx); K = BOUNDS[ctx.tier]['K_iterations']; K_ACC[0] = BOUNDS[ctx.tier]['accuracy_iterations']
     J = [(job_entry, ('lt', K)), (job_entry, ('gt', K)), (job_entry, ('eq', 1)), (job_order, (min(K, 2),)), (job_linear, ())]
     for h in bp.harnesses('C02.c', ctx.tier): J.append((job_bp, (h,)))
     return J
@@ -112,6 +127,17 @@ def table_cb(xs, fs):
         return va + (vb - va) * (x - a) / (b - a)
     return f
 
+def far_zero_cb(xs, fs, v):
+    """continuous function through the model's points whose sign changes are placed as far from v as the recorded values allow (piecewise linear, one zero per opposite-sign neighbour pair)"""
+    pts = sorted(set(zip(xs, fs))); bp_ = []; zeros = [a for a, fa in pts if fa == 0]
+    for (a, fa), (b, fb) in zip(pts, pts[1:]):
+        bp_.append((a, fa))
+        if fa * fb < 0:
+            z = a + 1e-3 * (b - a) if abs(a - v) >= abs(b - v) else b - 1e-3 * (b - a)
+            bp_.append((z, 0.0)); zeros.append(z)
+    bp_.append(pts[-1])
+    return table_cb([p[0] for p in bp_], [p[1] for p in bp_]), zeros
+
 def replay(ctx, o):
     so = native(ctx); m = o['model'] or {}; key = o['key']
     if o['backend'] == 'BP':
@@ -135,6 +161,11 @@ def replay(ctx, o):
         if r['status'] != 'ok': return True, 'native Find_Root on F(x)=%r x + %r, bracket [%r,%r]: %s' % (mu, nu, xl, xr, r['status'])
         return abs(r['ret'] * mu + nu) > 1e-9 * max(abs(nu), abs(mu * r['ret']), 1e-300), 'native Find_Root on the line %r x + %r returned %r (root %r), %d evaluations' % (mu, nu, r['ret'], -nu / mu, len(r['calls']))
     xs = [q2f(q) for q in m['calls_x']]; fs = [q2f(q) for q in m['calls_f']]
+    if key.startswith('C02/accuracy/'):
+        f, zeros = far_zero_cb(xs, fs, q2f(m['ret'])); r = nat.call(so, 'verif_c02_root', [xl, xr, acc], fcb=f)
+        if r['status'] != 'ok': return False, 'native Find_Root ended with %s' % r['status']
+        d = min(abs(z - r['ret']) for z in zeros) if zeros else float('inf')
+        return (d > acc and f(min(xl, xr)) * f(max(xl, xr)) < 0), 'native Find_Root on [%r,%r], accuracy %r, continuous piecewise-linear F through %s with zeros at %s: returned %r after %d evaluations, nearest sign change %r away' % (xl, xr, acc, list(zip(xs, fs)), zeros, r['ret'], len(r['calls']), d)
     f = table_cb(xs, fs); r = nat.call(so, 'verif_c02_root', [xl, xr, acc], fcb=f)
     lo, hi = min(xl, xr), max(xl, xr); fl, fr = f(lo), f(hi)
     if key == 'C02/valid-bracket-never-exits':
